@@ -282,6 +282,24 @@ impl<Key> SpecificObjectWithServices<Key> where Key: Copy + Eq + Hash {
         }
     //@end
 
+    // the dispatch: object events never concern an entry of this kind (its object is reported through its services); service
+    // events go to the two handlers above under their preconditions
+    //@fn aldrin/src/discoverer/specific_with_services.rs SpecificObjectWithServices::handle_event
+        requires
+            event matches BusEvent::ServiceCreated(id) ==> ((id.object_id.uuid == old(self).object && old(self).services@.contains_key(id.uuid))
+                ==> old(self).services@[id.uuid] is None),
+            event matches BusEvent::ServiceDestroyed(id) ==> ((id.object_id.uuid == old(self).object && old(self).services@.contains_key(id.uuid))
+                ==> old(self).services@[id.uuid] == Some(id.cookie)),
+        ensures
+            final(self).key == old(self).key, final(self).object == old(self).object,
+            final(self).services@.dom() == old(self).services@.dom(),
+            (event is ObjectCreated || event is ObjectDestroyed) ==> r is None && final(self).services@ == old(self).services@
+                && final(self).cookie == old(self).cookie,
+            // an entry reports its object only while every required service is present
+            r is Some && r->Some_0.kind == DiscovererEventKind::Created ==> event is ServiceCreated
+                && (forall|su: ServiceUuid| #![trigger final(self).services@[su]] final(self).services@.contains_key(su) ==> final(self).services@[su] is Some),
+    //@end
+
     // losing one of the required services un-reports the object (one Destroyed event if it was reported); a service the
     // entry does not require, or one of another object, changes nothing
     //@fn aldrin/src/discoverer/specific_with_services.rs SpecificObjectWithServices::service_destroyed
